@@ -17,12 +17,13 @@ RULE = ('as C01 but biased to time: backoff tables over {0,1,1,5,30,300} '
 COMPONENTS = qc.COMPONENTS
 BUDGET = {'quick': 15000, 'thorough': 300000}
 PROBES = ['retry-round', 'preloaded', 'announced-by-second-queue',
-          'flush-call', 'flush-with-waiting-message', 'requeue-after-flush',
+          'retry-later-than-due', 'flush-call', 'flush-with-waiting-message',
+          'requeue-after-flush',
           'equal-due-times', 'backoff-0-retry', 'announcement',
           'backend:dict', 'backend:disk', 'backend:redis', 'backend:cloud',
           'backend:cloud+mq']
 STATES_MEASURE = 'distinct (backend, per-message attempt-shape sequence)'
-BIAS = {'p_split': 0.15, 'L': [1, 2, 2, 3], 'waits': (0, 1, 1, 5, 30, 30, 300),
+BIAS = {'p_split': 0.15, 'p_slow_store': 0.25, 'L': [1, 2, 2, 3], 'waits': (0, 1, 1, 5, 30, 30, 300),
         'hows': ['enqueue', 'enqueue', 'preload', 'announce'],
         'n_flush': [0, 0, 1, 1, 2], 'p_map': 0.3,
         'whole': ['temp', 'temp', 'temp', 'other', 'none', 'perm'],
@@ -30,6 +31,7 @@ BIAS = {'p_split': 0.15, 'L': [1, 2, 2, 3], 'waits': (0, 1, 1, 5, 30, 30, 300),
         'relay_lat': (0.0, 0.0, 0.001, 0.01, 0.3)}
 FLUSH_BOUND = 10.0      # far above any storage latency, far below the waits
 EPS = 1e-6
+LATE = 0.05        # slack for "started late" (virtual seconds)
 
 
 def generate(seed, tier='quick'):
@@ -46,9 +48,51 @@ def due_history(obs, id):
         if hq_norm(o['id']) != id:
             continue
         if o['op'] in ('write', 'set_timestamp'):
-            out.append((o['t1'], o['args'], o['s1']))
-    out.sort(key=lambda x: x[2])
+            out.append((o['t1'], o['args'], o['s1'], o['op'] != 'write'))
+    # the write's effect precedes every later update of the same id, even
+    # when its reply reaches the caller after theirs (an announcing backend
+    # lets the first attempt and its re-queue finish before write() returns)
+    out.sort(key=lambda x: (x[3], x[2]))
+    return [x[:3] for x in out]
+
+
+def busy_intervals(obs, flushes=True):
+    """every interval of virtual time during which some storage operation,
+    relay attempt or flush() call of the run was in progress, merged"""
+    end = obs['t_end']
+    iv = []
+    for o in obs['store_ops']:
+        iv.append((o['t0'], end if o['t1'] is None else o['t1']))
+    for a in obs['attempts']:
+        iv.append((a['t0'], end if a['t1'] is None else a['t1']))
+    for f in obs['flushes'] if flushes else ():
+        iv.append((f['t0'], end if f['t1'] is None else f['t1']))
+    iv.sort()
+    out = []
+    for a, b in iv:
+        if out and a <= out[-1][1]:
+            out[-1][1] = max(out[-1][1], b)
+        else:
+            out.append([a, b])
     return out
+
+
+def idle_within(busy, a, b):
+    """measure of [a, b] covered by no busy interval"""
+    idle, cur = 0.0, a
+    for x, y in busy:
+        if y <= cur:
+            continue
+        if x >= b:
+            break
+        if x > cur:
+            idle += x - cur
+        cur = max(cur, y)
+        if cur >= b:
+            break
+    if cur < b:
+        idle += b - cur
+    return idle
 
 
 def judge(scn, obs, world):
@@ -58,6 +102,8 @@ def judge(scn, obs, world):
         return v
     an = qc.analyse(scn, obs)
     flushes = obs['flushes']
+    busy = busy_intervals(obs)
+    busy_nf = busy_intervals(obs, flushes=False)
     if flushes:
         world.probe('flush-call')
     if len(set(scn['backoff'])) < len(scn['backoff']):
@@ -73,11 +119,17 @@ def judge(scn, obs, world):
                                  f['t0'] - world.loop._start,
                                  world.blocked_report())})
             break
-        if f['t1'] - f['t0'] > FLUSH_BOUND:
+        # flush() may wait for storage work (it spawns into the store pool)
+        # but not on the sleeping scheduler loop: time inside the call during
+        # which no storage operation or attempt was in progress
+        idle = idle_within(busy_nf, f['t0'], f['t1'])
+        if idle > 1.0:
             v.append({'clause': 'C12/flush-blocked',
                       'detail': {'returned': 'late'},
-                      'msg': 'flush() took %.1f virtual seconds: it waited on '
-                             'the scheduler loop' % (f['t1'] - f['t0'])})
+                      'msg': 'flush() took %.1f virtual seconds, %.1f of them '
+                             'with no storage operation or attempt in '
+                             'progress: it waited on the scheduler loop' % (
+                                 f['t1'] - f['t0'], idle)})
             break
     for k, a in sorted(an.items()):
         m = a['m']
@@ -125,6 +177,29 @@ def judge(scn, obs, world):
                     break
                 if flushed and att['t0'] < due - EPS:
                     world.probe('attempt-triggered-by-flush')
+                # (1b) attempted once the time has passed: a retry the
+                # running queue scheduled itself may start later than its
+                # due time only while something (a storage operation, an
+                # attempt, a flush) is in progress that it can be waiting
+                # for - the scheduler is work-conserving.  Sound because
+                # computation takes no virtual time.
+                served = any(x['start_seq'] > ps for x in a['attempts'][:i])
+                if i > 0 and not flushed and not served and not shifted \
+                        and att['t0'] > due + LATE:
+                    world.probe('retry-later-than-due')
+                    idle = idle_within(busy, due, att['t0'])
+                    if idle > LATE:
+                        v.append({'clause': 'C12/late',
+                                  'detail': det(how=m.get('how', 'enqueue')),
+                                  'msg': 'message %d attempt #%d was due at '
+                                         't=%.6f and started at t=%.6f: %.3f s '
+                                         'late, of which %.3f s with no storage '
+                                         'operation, attempt or flush in '
+                                         'progress anywhere' % (
+                                             k, i, due - world.loop._start,
+                                             att['t0'] - world.loop._start,
+                                             att['t0'] - due, idle)})
+                        break
             if att['t1'] is not None:
                 prev = att
         # (2) never forgotten: stored, unsettled, and no attempt at/after the
@@ -181,19 +256,52 @@ def judge(scn, obs, world):
                 continue        # given up / finished before the flush
             if not last_done and m.get('how', 'enqueue') == 'enqueue':
                 continue
-            if p > f['t0'] - 0.5:
-                continue        # re-queue still being recorded around the flush
+            if not last_done:
+                # never attempted yet: it waits only once the running queue
+                # has learned of it - its start-up listing has ended, or the
+                # storage has announced it and the announcement was taken in
+                learned = any(o['op'] == 'load' and o['tag'] == 's' and
+                              o['s1'] is not None and o['s1'] < f['s0'] and
+                              any(i == id for ts, i in o['args'])
+                              for o in obs['store_ops']) or \
+                    any(t < f['t0'] - 0.5 and i == id
+                        for t, i in obs['announces'])
+                if not learned:
+                    continue
+            else:
+                # the re-queue of the last attempt was recorded (its
+                # set_timestamp had returned) before flush() was called
+                if not any(x[2] > last_done[-1]['end_seq'] and x[2] < f['s0']
+                           for x in dh):
+                    continue
+                # ... and so was everything else of that outcome (delivered
+                # marks are recorded before the message goes back on the
+                # timetable)
+                if any(o['id'] is not None and hq_norm(o['id']) == id and
+                       o['tag'] == 's' and o['s0'] < f['s0'] and
+                       (o['s1'] is None or o['s1'] > f['s0'])
+                       for o in obs['store_ops']):
+                    continue
+            if p > f['t0'] - 0.5 and not last_done:
+                continue        # still being recorded around the flush
             world.probe('flush-with-waiting-message')
-            hit = [att for att in a['attempts']
-                   if f['t0'] - EPS <= att['t0'] <= f['t1'] + FLUSH_BOUND]
+            # "immediately": the attempt may wait for storage work and for
+            # pool slots, i.e. only while something is in progress
+            nxt = [att for att in a['attempts'] if att['t0'] >= f['t0'] - EPS]
+            hit = [att for att in nxt[:1]
+                   if idle_within(busy_nf, f['t1'], att['t0']) <= 1.0]
             if not hit:
                 v.append({'clause': 'C12/flush-ineffective', 'detail': det(),
                           'msg': 'message %d was waiting (due t=%.3f) when '
-                                 'flush() was called at t=%.3f but no attempt '
-                                 'started within %.0f s' % (
+                                 'flush() was called at t=%.3f but %s' % (
                                      k, due - world.loop._start,
                                      f['t0'] - world.loop._start,
-                                     FLUSH_BOUND)})
+                                     'it was never attempted again' if not nxt
+                                     else 'its next attempt started at t=%.3f'
+                                     ', after %.1f s with nothing in progress'
+                                     % (nxt[0]['t0'] - world.loop._start,
+                                        idle_within(busy_nf, f['t1'],
+                                                    nxt[0]['t0'])))})
                 break
             # (5) re-queued after a flush-triggered attempt: covered by (2)
             if any((att['truth'] or {}) and 'temp' in att['truth'].values()
